@@ -152,3 +152,51 @@ func VerifC40WrongHash() {
 	nd.Reach("c40.wronghash")
 	nd.Assert("c40.wrong-password-rejected", !ok)
 }
+
+// Account host patterns: matchesHostPattern(host, pattern) holds exactly when
+// the WHOLE host matches the pattern with '%' standing for any (possibly empty)
+// sequence and every other character for itself. The real function builds a
+// regular expression (regexp.QuoteMeta, ReplaceAll, anchors) and matches it with
+// package regexp, both interpreted from source. Hosts and patterns are drawn
+// from concrete alphabets by selectors (a symbolic subject through the regexp
+// machines costs minutes per query — measured), so this harness is an exhaustive
+// enumeration of short hosts x patterns, not a solver question.
+// (Added after the seeded change /verif/seeded/C40-hostpattern-unanchored — the
+// trailing '$' anchor lost — was missed: the first C40 check covered the
+// password verifier only.)
+func c40WildMatch(h, p string) bool {
+	if p == "" {
+		return h == ""
+	}
+	if p[0] == '%' {
+		for i := 0; i <= len(h); i++ {
+			if c40WildMatch(h[i:], p[1:]) {
+				return true
+			}
+		}
+		return false
+	}
+	return h != "" && h[0] == p[0] && c40WildMatch(h[1:], p[1:])
+}
+
+func c40Word(tag string, alphabet string, maxLen int) string {
+	n := nd.IntRange(tag+".len", 0, maxLen)
+	b := make([]byte, n)
+	for i := range b {
+		b[i] = alphabet[nd.Pick(tag+".c"+string(rune('0'+i)), len(alphabet))]
+	}
+	return string(b)
+}
+
+func VerifC40HostPattern() {
+	host := c40Word("c40.host", "a.1", nd.Bound(4, 5))
+	pattern := c40Word("c40.pat", "%a.1", nd.Bound(3, 4))
+	got := matchesHostPattern(host, pattern)
+	nd.Reach("c40.hostpattern")
+	nd.Observe(host, pattern, got)
+	hasWild := false
+	for i := 0; i < len(pattern); i++ {
+		hasWild = hasWild || pattern[i] == '%'
+	}
+	nd.Assert("c40.hostpattern.whole-host-matches", got == (hasWild && c40WildMatch(host, pattern)))
+}
